@@ -37,6 +37,9 @@ def run(args):
     rep.floor("poly_jacobian_cells", n_poly, 800)
     from . import rules_jet
     nfj, noj = rules_jet.check(rep, "C05", {("manif::SE2TangentBase", "exp"), ("manif::SO3TangentBase", "exp"), ("manif::SO3Base", "log")}, obs="outputs")
+    from . import rules_series
+    nser = rules_series.check(rep, "C05", {"expjac", "logjac"})
+    rep.floor("series_jacobian_cells", nser, 472)
     rep.floor("jet_switch_functions", nfj, 3)
     rep.floor("jet_jacobian_observables", noj, 8)
     rep.floor("functions_with_optional_outputs", len(opt_fns), 500)
@@ -56,11 +59,12 @@ def run(args):
         "R-BLOCK: constant block / corner / coefficient accesses on Jacobian outputs lie inside the output's static extent",
         "R-NOALIAS: operands of A.noalias() = E living in the same matrix as A are disjoint from A",
         "C05.f R-POLY.jac (exact): for SO2, SE2, SO3, SE3, SE_2_3, SGal3, Rn the analytic Jacobians of inverse, compose (both) and act (both), evaluated over the polynomial ring, equal cell by cell the derivatives that follow from the matrix realisation and the hat/vee tables: J[inverse] = -Adj(X), J[compose]_X = Adj(Y^-1), J[compose]_Y = I, J[act]_X e_i = (T(X) E_i [p;e])[:Dim], J[act]_p = T(X)[:Dim,:Dim] - these operations' Jacobians ARE the true derivative",
+        "C05.g R-SERIES.expjac/logjac: for SO2, SE2, SO3, SE3, SE_2_3, SGal3 the Jacobian written by exp(J), resp. by log(J) at exp(t), interpreted over truncated power series in the tangent (engine/jetnum.py), equals the series of the true derivative sum (-ad)^k/(k+1)!, resp. sum B_k (-ad)^k/k!, through order 4 cell by cell (ad = smallAdj, proved against the bracket by C07/C06)",
         "C05.e R-JET: the Jacobian entries written on both sides of a small-angle switch (SE2Tangent::exp, SO3Tangent::exp, SO3::log) meet within 1e-7 (double) / 1e-3 (float) at the switch-over and have no negative-order term",
         "forwarding an optional (or a block of it) to a callee counts as the callee's proven write-set (modular summaries; *_impl helpers are summarised into their callers)",
     ]
     rep.units = rr.tags
     rep.trusted = ["clang 14 AST / template instantiation / integer constant folding", "Eigen block API semantics for the ~25 accessor names in engine/rules_out.py", "tl::optional"]
-    rep.assumptions = ["NOT decided: that the transcendental closed forms (Jacobians of exp and log: rjac, rjacinv and the chain rules built from them) are the true derivative away from the switch-over; rounding behaviour"]
+    rep.assumptions = ["NOT decided: that the transcendental closed forms (Jacobians of exp and log: rjac, rjacinv and the chain rules built from them) are the true derivative beyond order 4 of their Taylor expansion at the origin; rounding behaviour"]
     rep.checker_cmd = "manif-sa plugin (mode=funcs) + engine/rules_out.py abstract interpreter"
     return rep.finish()
